@@ -174,6 +174,14 @@ class Evaluator:
             raise _Continue()
         if isinstance(s, ast.Break):
             raise _Break()
+        if isinstance(s, ast.Match):
+            from .desugar import match_as_ifs, Unsupported
+            try:
+                stmts = match_as_ifs(s)
+            except Unsupported as e:
+                raise Inconclusive("match statement (%s)" % e)
+            self.block(stmts, env, depth)
+            return
         raise Inconclusive("statement %s" % type(s).__name__)
 
     def truth(self, v):
@@ -249,6 +257,10 @@ class Evaluator:
             return Sentinel("fmt:" + " ".join(ast.unparse(e).split()))
         if isinstance(e, ast.Call):
             return self.call(e, env, depth)
+        if isinstance(e, ast.NamedExpr) and isinstance(e.target, ast.Name):
+            v = self.expr(e.value, env, depth)
+            env[e.target.id] = v
+            return v
         raise Inconclusive("expression %s" % type(e).__name__)
 
     def comp(self, e, env, depth):
